@@ -82,15 +82,18 @@ theorem closed_stream_write_fails (e : EP) (h i : Nat) (o : Obj) (d : Bytes)
   (Mux.appWrite_glue e h i o d hh ho).1 hc
 
 /-- Multiplexor calls after the task has finished: `Closed` (queued streams / datagrams / bind
-    requests are still handed out first), a negative bind answer or `Closed` for new requests. -/
+    requests are still handed out first), a negative bind answer or `Closed` for new requests —
+    and a new open or bind request leaves the flow table as it was (no slot stays behind for a
+    request that could not be sent; C06 `open_on_ended_connection_leaves_no_slot`). -/
 theorem calls_after_end (e : EP) (hd : e.dead = true) (hoc : e.outClosed = true) :
     (e.acceptq = [] → appAccept e = (e, .closed)) ∧
     (e.dgramq = [] → appRecvDgram e = (e, .closed)) ∧
     (e.opts.bindCap ≠ 0 → e.bindq = [] → appBindNext e = (e, .closed)) ∧
     (∀ d, d.host.length ≤ 255 → appSendDgram e d = (e, .closed)) ∧
-    (∀ req host port, ∃ e', appOpen e req host port = (e', [.openDone req .closed]) ∨
-        appOpen e req host port = (e', [.openDone req .rejected])) ∧
-    (∀ req bt host port, (appBindReq e req bt host port).2 = [.bindDone req .closed]) := by
+    (∀ req host port, ∃ e', e'.flows = e.flows ∧ (appOpen e req host port = (e', [.openDone req .closed]) ∨
+        appOpen e req host port = (e', [.openDone req .rejected]))) ∧
+    (∀ req bt host port, (appBindReq e req bt host port).1.flows = e.flows ∧
+        (appBindReq e req bt host port).2 = [.bindDone req .closed]) := by
   refine ⟨?_, ?_, ?_, ?_, ?_, ?_⟩
   · intro h; simp [appAccept, h, hd]
   · intro h; simp [appRecvDgram, h, hd]
@@ -101,14 +104,14 @@ theorem calls_after_end (e : EP) (hd : e.dead = true) (hoc : e.outClosed = true)
   · intro req host port
     simp only [appOpen, openRound]
     split
-    · exact ⟨_, Or.inr rfl⟩
+    · refine ⟨_, ?_, Or.inr rfl⟩; rfl
     · split
-      · exact ⟨_, Or.inr rfl⟩
-      · simp only [hoc, if_true]; exact ⟨_, Or.inl rfl⟩
+      · refine ⟨_, ?_, Or.inr rfl⟩; rfl
+      · simp only [hoc, if_true]; refine ⟨_, ?_, Or.inl rfl⟩; rfl
   · intro req bt host port
     simp only [appBindReq]
     split
-    · rfl
+    · exact ⟨rfl, rfl⟩
     · simp [hoc]
 
 /-- Pending open and bind requests in the flow table at teardown resolve: `Closed` for opens (never
